@@ -4,11 +4,12 @@ from __future__ import annotations
 import ast
 
 from ..absval import Undecided
-from ..core import (AnalysisError, call_name, dotted, is_const, kwarg, local_defs, norm, origin, parent_map,
+from ..core import (AnalysisError, alpha, call_name, dotted, is_const, kwarg, local_defs, norm, origin, parent_map,
                     walk_local)
 from ..facts import guards_of, returns_of, enclosing_loops, unpack_of
 from ..rules import matcher as M
 from ..shape import walk_paths
+from ..pattern import pmatch, pfind, pall
 
 MM = "synkit/Graph/Matcher/mcs_matcher.py"
 MT = "synkit/Graph/MTG/mcs_matcher.py"
@@ -32,8 +33,8 @@ META = {
 
 
 def run(rep):
-    rep.run(search, MM, "MCSMatcher._search_subgraphs", "pattern", "host", "mappings", "best_size")
-    rep.run(search, MT, "MCSMatcher.find_common_subgraph", "G1", "G2", "self._mappings", "self._last_size")
+    rep.run(search, MM, "MCSMatcher._search_subgraphs", 1, 2)
+    rep.run(search, MT, "MCSMatcher.find_common_subgraph", 1, 2)
     for rel in (MM, MT):
         invert(rep, rel)
         mcs_mol(rep, rel)
@@ -41,8 +42,13 @@ def run(rep):
     rep.run(orientation)
 
 
-def search(rep, rel, q, P, H, RES, BEST):
+def _flat(t):
+    return norm(t).replace(" ", "")
+
+
+def search(rep, rel, q, pi, hi):
     fi = rep.f(rel, q)
+    P, H = fi.params[pi], fi.params[hi]
     defs = local_defs(fi.node)
     pm = parent_map(fi.node)
     size_loops = [l for l in walk_local(fi.node) if isinstance(l, ast.For) and any(
@@ -52,64 +58,93 @@ def search(rep, rel, q, P, H, RES, BEST):
     sl = size_loops[0]
     k = norm(sl.target)
     it = origin(defs, sl.iter)
-    itxt = norm(it).replace(" ", "")
-    desc = itxt in ("range(max_k,0,-1)", "reversed(range(1,max_k+1))")
-    rep.ob("O12.2", "R16", fi, desc, it, "candidate sizes descend from max_k to 1 (largest common subgraphs are found first)", node=sl)
-    mk = origin(defs, ast.Name(id="max_k", ctx=ast.Load()))
-    mtxt = norm(mk).replace(" ", "")
-    ok = mtxt in (f"min({P}.number_of_nodes(),{H}.number_of_nodes())", f"min(len({P}),len({H}))")
-    rep.ob("O12.2", "R16", fi, ok, mk, "the largest candidate size is min(|pattern|, |host|)")
+    m = pmatch("range($$mk, 0, -1)", it) or pmatch("reversed(range(1, $$mk + 1))", it)
+    rep.ob("O12.2", "R16", fi, m is not None, it, "candidate sizes descend from max_k to 1 (largest common subgraphs are found first)", node=sl)
+    mk = None
+    if m:
+        mk_node = it.args[0] if call_name(it) == "range" else it.args[0].args[1].left
+        mk = origin(defs, mk_node)
+    ok = mk is not None and _flat(mk) in (f"min({P}.number_of_nodes(),{H}.number_of_nodes())", f"min(len({P}),len({H}))",
+                                         f"min({H}.number_of_nodes(),{P}.number_of_nodes())")
+    rep.ob("O12.2", "R16", fi, ok, mk if mk is not None else "max_k", "the largest candidate size is min(|pattern|, |host|)")
     # exits of the size loop (outside the inner loops)
     comb = [l for l in walk_local(sl) if isinstance(l, ast.For) and isinstance(l.iter, ast.Call) and call_name(l.iter) == "combinations"]
     rep.need("R16", len(comb), 1, "combinations loop")
     cl = comb[0]
-    ok = norm(cl.iter.args[0]).replace(" ", "") == f"{P}.nodes()" and norm(cl.iter.args[1]) == k
+    ok = _flat(cl.iter.args[0]) in (f"{P}.nodes()", f"{P}.nodes", f"{P}", f"list({P}.nodes())") and norm(cl.iter.args[1]) == k
     rep.ob("O12.2", "R16", fi, ok, cl.iter, "every k-subset of the pattern's nodes is a candidate")
+    iso_loops = [l for l in walk_local(cl) if isinstance(l, ast.For) and isinstance(l.iter, ast.Call) and call_name(l.iter) in (M.SUB_METHODS | M.ISO_METHODS)]
+    rep.need("R2", len(iso_loops), 1, "iso loop")
+    il = iso_loops[0]
+    # discovered roles: result list, inverted mapping, level flag, best size
+    apps = [(c, b) for c, b in pfind("$$res.append($inv)", il)]
+    inv_name = res_txt = None
+    for c, b in apps:
+        src = origin(defs, ast.Name(id=b["inv"], ctx=ast.Load()))
+        if pmatch(f"self._invert_mapping({norm(il.target)})", src) is not None:
+            inv_name, res_txt, app_call = b["inv"], b["res"], c
+    flags = [norm(n.targets[0]) for n in walk_local(il) if isinstance(n, ast.Assign) and is_const(n.value, True) and isinstance(n.targets[0], ast.Name)]
+    flag = flags[0] if len(set(flags)) == 1 else None
+    best_w = [n for n in walk_local(sl) if isinstance(n, ast.Assign) and norm(n.value) == k and n not in walk_local(cl)]
+    BEST = norm(best_w[0].targets[0]) if len(best_w) == 1 else None
+    # the flag is lowered once per level, before the subsets are enumerated
+    resets = [n for n in sl.body if flag and pmatch(f"{flag} = False", n) is not None]
+    ok_flag = flag is not None and len(resets) == 1 and resets[0].lineno < cl.lineno and \
+        not [n for n in walk_local(cl) if isinstance(n, ast.Assign) and norm(n.targets[0]) == flag and not is_const(n.value, True)]
+    rep.ob("O12.2", "R16", fi, ok_flag, resets[0] if resets else "level_found = False", "the level flag is lowered once per size, before its subsets are enumerated")
     for ex in [n for n in walk_local(sl) if isinstance(n, (ast.Break, ast.Return))]:
         inside_inner = any(l is cl or enclosing_loops(pm, l, sl) and cl in enclosing_loops(pm, l, sl) for l in enclosing_loops(pm, ex, sl))
-        gs = [(norm(t).replace(" ", ""), s) for t, s in guards_of(pm, ex, sl)]
+        gs = [(_flat(t), s) for t, s in guards_of(pm, ex, sl)]
         if inside_inner:
             rep.ob("O12.2", "R16", fi, False, f"{type(ex).__name__} under {gs}", "the subset enumeration of a level is never cut short", node=ex)
             continue
         flat = [g for g, s in gs if s]
         in_mcs = any(g == "mcs" or g.startswith("mcsand") for g in flat)
-        after_level = any(g == "level_found" for g in flat) or any(f"{k}<{BEST}" in g for g in flat)
+        after_level = (flag is not None and any(g == flag for g in flat) and ex.lineno > cl.lineno) or (BEST is not None and any(f"{k}<{BEST}" in g for g in flat))
         rep.ob("O12.2", "R16", fi, in_mcs and after_level, f"{type(ex).__name__} under {flat}",
                "the search stops early only in maximum mode and only once a complete level has produced a result (or sizes fell below the best)", node=ex)
-    iso_loops = [l for l in walk_local(cl) if isinstance(l, ast.For) and isinstance(l.iter, ast.Call) and call_name(l.iter) in (M.SUB_METHODS | M.ISO_METHODS)]
-    rep.need("R2", len(iso_loops), 1, "iso loop")
-    il = iso_loops[0]
     rep.ob("O12.1", "R2", fi, call_name(il.iter) == "subgraph_isomorphisms_iter", il.iter,
            "common subgraphs are *induced*: bonds between mapped atoms must be present (with equal order) on both sides", node=il)
     for ex in [n for n in walk_local(il) if isinstance(n, (ast.Continue, ast.Break, ast.Return))]:
-        gs = [norm(t).replace(" ", "") for t, s in guards_of(pm, ex, il) if s]
-        ok = isinstance(ex, ast.Continue) and (gs == ["keyinseen"] or gs == ["host_setinhost_sets_seen", "self.prune_automorphisms"])
-        rep.ob("O12.2", "R16", fi, ok, f"{type(ex).__name__} under {gs}", "a mapping is skipped only as an exact duplicate (or, when asked, as an automorphic image)", node=ex)
+        gs = [t for t, s in guards_of(pm, ex, il) if s]
+        ok = False
+        if isinstance(ex, ast.Continue) and inv_name:
+            if len(gs) == 1:
+                mm = pmatch("$key in $seen", gs[0])
+                if mm:
+                    ksrc = origin(defs, ast.Name(id=mm["key"], ctx=ast.Load()))
+                    ok = pmatch(f"tuple(sorted({inv_name}.items()))", ksrc) is not None and bool(pfind(f"{mm['seen']}.add({mm['key']})", il))
+            elif len(gs) == 2 and "self.prune_automorphisms" in [norm(g) for g in gs]:
+                other = [g for g in gs if norm(g) != "self.prune_automorphisms"][0]
+                mm = pmatch("$hs in $hss", other)
+                if mm:
+                    hsrc = origin(defs, ast.Name(id=mm["hs"], ctx=ast.Load()))
+                    ok = pmatch(f"frozenset({inv_name}.values())", hsrc) is not None and bool(pfind(f"{mm['hss']}.add({mm['hs']})", il))
+        rep.ob("O12.2", "R16", fi, ok, f"{type(ex).__name__} under {[_flat(g) for g in gs]}", "a mapping is skipped only as an exact duplicate (or, when asked, as an automorphic image)", node=ex)
     # matcher
     ss = [s for s in M.sites(fi)]
     rep.need("R2", len(ss), 1, f"GraphMatcher in {q}")
     s = ss[0]
     sub = origin(defs, s.g2)
-    ok = norm(s.g1) == H and norm(sub).replace(" ", "") == f"{P}.subgraph(nodes).copy()"
+    ok = norm(s.g1) == H and pmatch(f"{P}.subgraph({norm(cl.target)}).copy()", sub) is not None
     rep.ob("O12.1", "R2", fi, ok, s.call, "the matcher embeds the candidate sub-pattern (G2) into the host (G1)", {"G1": norm(s.g1), "G2": norm(sub)}, node=s.call)
     ok = s.node_match is not None and norm(s.node_match) == "self.node_match" and s.edge_match is not None and norm(s.edge_match) == "self._edge_match"
     rep.ob("O12.1", "R2", fi, ok, s.call, "node labels and bond orders are compared by the configured predicates", node=s.call)
-    inv = origin(defs, ast.Name(id="inv", ctx=ast.Load()))
-    apps = [c for c in walk_local(il) if isinstance(c, ast.Call) and norm(c.func) == f"{RES}.append"]
-    ok = norm(inv) == f"self._invert_mapping({norm(il.target)})" and len(apps) == 1 and norm(apps[0].args[0]) == "inv"
-    rep.ob("O12.1", "R2", fi, ok, apps[0] if apps else "append", "host->pattern dicts are inverted and stored pattern->host", node=il)
+    ok = inv_name is not None and len(apps) == 1 and norm(origin(defs, il.iter.func.value)) == norm(s.call)
+    rep.ob("O12.1", "R2", fi, ok, apps[0][0] if apps else "append", "host->pattern dicts are inverted and stored pattern->host", node=il)
+    RES = res_txt
     # final filter
-    filt = [n for n in walk_local(fi.node) if isinstance(n, ast.Assign) and norm(n.targets[0]) == RES and isinstance(n.value, ast.ListComp)]
+    filt = [n for n in walk_local(fi.node) if RES and isinstance(n, ast.Assign) and norm(n.targets[0]) == RES and isinstance(n.value, ast.ListComp)]
     ok = False
-    if filt:
+    if filt and BEST:
         lc = filt[0].value
-        cond = [norm(i).replace(" ", "") for i in lc.generators[0].ifs]
-        gs = [norm(t).replace(" ", "") for t, s_ in guards_of(pm, filt[0], fi.node) if s_]
-        ok = cond == [f"len({norm(lc.generators[0].target)})=={BEST}"] and norm(lc.generators[0].iter) == RES and gs == [f"mcsand{BEST}"]
+        cond = [_flat(i) for i in lc.generators[0].ifs]
+        gs = [_flat(t) for t, s_ in guards_of(pm, filt[0], fi.node) if s_]
+        ok = cond == [f"len({norm(lc.generators[0].target)})=={BEST}"] and norm(lc.generators[0].iter) == RES and gs == [f"mcsand{BEST}"] \
+            and norm(lc.elt) == norm(lc.generators[0].target) and filt[0].lineno > sl.lineno
     rep.ob("O12.2", "R16", fi, ok, filt[0] if filt else "final filter", "in maximum mode only mappings of the best size are kept (all returned mappings have the same size)")
-    best_w = [n for n in walk_local(sl) if isinstance(n, ast.Assign) and norm(n.targets[0]) == BEST]
-    ok = len(best_w) == 1 and norm(best_w[0].value) == k and [norm(t) for t, s_ in guards_of(pm, best_w[0], sl) if s_] == ["level_found"]
-    rep.ob("O12.2", "R16", fi, ok, best_w[0] if best_w else BEST, "the best size is the first (largest) level that produced a mapping")
+    ok = len(best_w) == 1 and flag is not None and [norm(t) for t, s_ in guards_of(pm, best_w[0], sl) if s_] == [flag] and best_w[0].lineno > cl.lineno
+    rep.ob("O12.2", "R16", fi, ok, best_w[0] if best_w else "best size", "the best size is the first (largest) level that produced a mapping")
 
 
 def invert(rep, rel):
@@ -122,50 +157,71 @@ def invert(rep, rel):
 
 def mcs_mol(rep, rel):
     fi = rep.f(rel, "MCSMatcher._find_mcs_mol")
+    A, B = fi.params[1], fi.params[2]
     pm = parent_map(fi.node)
     ss = M.sites(fi)
     rep.need("R2", len(ss), 1, "GraphMatcher in _find_mcs_mol")
     s = ss[0]
     defs = local_defs(fi.node)
-    a, b = norm(origin(defs, s.g1)), norm(origin(defs, s.g2))
-    rep.ob("O12.1", "R2", fi, a.startswith("G1.subgraph(") and b.startswith("G2.subgraph("), s.call, "molecule mode matches a component of G1 with a component of G2", node=s.call)
+    a, b = origin(defs, s.g1), origin(defs, s.g2)
+    ma, mb = pmatch(f"{A}.subgraph($c1)", a), pmatch(f"{B}.subgraph($c2)", b)
+    rep.ob("O12.1", "R2", fi, ma is not None and mb is not None, s.call, "molecule mode matches a component of G1 with a component of G2", node=s.call)
     rep.ob("O12.1", "R2", fi, [m for m, _ in s.methods] == ["is_isomorphic"], [m for m, _ in s.methods], "components are matched by full isomorphism")
-    gs = [norm(t).replace(" ", "") for c in [s.call] for t, sn in guards_of(pm, c, fi.node)]
     cont = [n for n in walk_local(fi.node) if isinstance(n, ast.Continue)]
-    ctx = [norm(t).replace(" ", "") for n in cont for t, sn in guards_of(pm, n, fi.node) if sn]
-    rep.ob("O12.1", "R2", fi, "len(comp2)!=size" in ctx and "key2inused2" in ctx, ctx, "only unused components of equal size are candidates (injective on components)")
-    up = [c for c in walk_local(fi.node) if isinstance(c, ast.Call) and norm(c.func) == "combined.update"]
-    ok = len(up) == 1 and norm(up[0].args[0]) == f"{s.var}.mapping" and any("is_isomorphic()" in norm(t) and sn for t, sn in guards_of(pm, up[0], fi.node))
+    ctx = [t for n in cont for t, sn in guards_of(pm, n, fi.node) if sn]
+    ok = False
+    used = key = None
+    if ma and mb:
+        c1, c2 = ma["c1"], mb["c2"]
+        size_ok = any((mm := pmatch(f"len({c2}) != $sz", t)) is not None and pmatch(f"len({c1})", origin(defs, ast.Name(id=mm["sz"], ctx=ast.Load()))) is not None for t in ctx) \
+            or any(pmatch(f"len({c2}) != len({c1})", t) is not None for t in ctx)
+        for t in ctx:
+            mm = pmatch("$k in $used", t)
+            if mm and pmatch(f"frozenset({c2})", origin(defs, ast.Name(id=mm["k"], ctx=ast.Load()))) is not None:
+                used, key = mm["used"], mm["k"]
+        ok = size_ok and used is not None
+    rep.ob("O12.1", "R2", fi, ok, [norm(t) for t in ctx], "only unused components of equal size are candidates (injective on components)")
+    rets = returns_of(fi.node)
+    res = norm(rets[-1].value) if rets else None
+    up = [c for c in walk_local(fi.node) if isinstance(c, ast.Call) and norm(c.func) == f"{res}.update"]
+    ok = len(up) == 1 and norm(up[0].args[0]) == f"{s.var}.mapping" and any(call_name(t) == "is_isomorphic" and sn for t, sn in guards_of(pm, up[0], fi.node) if isinstance(t, ast.Call))
     rep.ob("O12.1", "R2", fi, ok, up[0] if up else "combined.update", "the G1->G2 mapping of an isomorphic pair is recorded as is")
-    mark = [c for c in walk_local(fi.node) if isinstance(c, ast.Call) and norm(c.func) == "used2.add"]
+    mark = [c for c in walk_local(fi.node) if used and isinstance(c, ast.Call) and pmatch(f"{used}.add({key})", c) is not None]
     rep.ob("O12.1", "R2", fi, len(mark) == 1 and guards_of(pm, mark[0], fi.node) == guards_of(pm, up[0], fi.node) if up and mark else False,
            mark[0] if mark else "used2.add", "a matched G2 component is not used again")
 
 
 def edge_match(rep):
     fi = rep.f(MM, "MCSMatcher._edge_match")
+    HA, PA = fi.params[1], fi.params[2]
     pm = parent_map(fi.node)
     loops = [l for l in walk_local(fi.node) if isinstance(l, ast.For)]
     ok = len(loops) == 1 and norm(loops[0].iter) == "self._edge_attrs"
     rep.ob("O12.1", "R13", fi, ok, loops[0].iter if loops else "for", "every configured edge attribute is examined")
+    hv = pv = None
     if loops:
         lp = loops[0]
+        nm = norm(lp.target)
+        for st, b in pfind(f"$v = {HA}.get({nm}, None)", lp) + pfind(f"$v = {HA}.get({nm})", lp):
+            hv = b["v"]
+        for st, b in pfind(f"$v = {PA}.get({nm}, None)", lp) + pfind(f"$v = {PA}.get({nm})", lp):
+            pv = b["v"]
         inside = [r for r in walk_local(lp) if isinstance(r, ast.Return)]
         ok = bool(inside) and all(is_const(r.value, False) for r in inside)
         rep.ob("O12.1", "R13", fi, ok, [norm(r) for r in inside], "inside the loop the predicate can only reject (no early acceptance after the first attribute)")
         brk = [n for n in walk_local(lp) if isinstance(n, ast.Break)]
         rep.ob("O12.1", "R13", fi, not brk, [norm(b) for b in brk], "the attribute loop is not cut short")
         conts = [n for n in walk_local(lp) if isinstance(n, ast.Continue)]
-        okc = all([norm(t).replace(" ", "") for t, s in guards_of(pm, n, lp) if s] == ["hvisNoneandpvisNone"] for n in conts)
+        okc = hv is not None and pv is not None and all([_flat(t) for t, s in guards_of(pm, n, lp) if s] in ([f"{hv}isNoneand{pv}isNone"], [f"{pv}isNoneand{hv}isNone"]) for n in conts)
         rep.ob("O12.1", "R13", fi, okc, [norm(t) for n in conts for t, s in guards_of(pm, n, lp)], "an attribute is ignored only if it is missing on both sides")
     rets = returns_of(fi.node)
     rep.ob("O12.1", "R13", fi, bool(rets) and is_const(rets[-1].value, True) and not guards_of(pm, rets[-1], fi.node), rets[-1] if rets else "return", "acceptance only after all attributes agreed")
     cmp_ = [n for n in walk_local(fi.node) if isinstance(n, ast.Compare) and isinstance(n.ops[0], ast.NotEq)]
-    ok = len(cmp_) == 2 and sorted(norm(c).replace(" ", "") for c in cmp_) == ["float(hv)!=float(pv)", "hv!=pv"]
+    ok = hv is not None and pv is not None and len(cmp_) == 2 and sorted(_flat(c) for c in cmp_) in (sorted([f"float({hv})!=float({pv})", f"{hv}!={pv}"]), sorted([f"float({pv})!=float({hv})", f"{pv}!={hv}"]))
     rep.ob("O12.1", "R13", fi, ok, [norm(c) for c in cmp_], "values are compared for (numeric or plain) equality between the host bond and the pattern bond")
     mt = rep.f(MT, "MCSMatcher._edge_match")
     rets = returns_of(mt.node)
-    ok = any("==" in norm(r.value) and "host_attrs.get(self.edge_attr)" in norm(r.value) and "pat_attrs.get(self.edge_attr)" in norm(r.value) for r in rets)
+    ok = any("==" in norm(r.value) and f"{mt.params[1]}.get(self.edge_attr)" in norm(r.value) and f"{mt.params[2]}.get(self.edge_attr)" in norm(r.value) for r in rets)
     rep.ob("O12.1", "R13", mt, ok, [norm(r.value)[:60] for r in rets], "MTG twin: bond orders are compared for equality")
 
 
@@ -185,45 +241,55 @@ def orientation(rep):
     rep.ob("O12.3", "R17", po, ok, t[0].test if t else "if", "the smaller graph becomes the pattern")
     fc = rep.f(MM, "MCSMatcher.find_common_subgraph")
     d = local_defs(fc.node)
-    ups = {nm: unpack_of(d, nm) for nm in ("pattern", "host", "pattern_is_G1")}
-    ok = all(ups.values()) and [ups[n][1] for n in ("pattern", "host", "pattern_is_G1")] == [(0,), (1,), (2,)] and call_name(ups["pattern"][0]) == "_prepare_orientation" \
-        and [norm(a) for a in ups["pattern"][0].args] == ["G1_use", "G2_use"]
+    A, B = fc.params[1], fc.params[2]
+    b = pall(["$p, $h, $f = self._prepare_orientation($a, $b)", "self._last_pattern_is_G1 = $f", "self._mappings = self._search_subgraphs($p, $h, mcs=mcs)"], fc.node)
+    ok = b is not None and pmatch(f"self._prune_graph({A})", origin(d, ast.Name(id=b["a"], ctx=ast.Load()))) is not None \
+        and pmatch(f"self._prune_graph({B})", origin(d, ast.Name(id=b["b"], ctx=ast.Load()))) is not None
     rep.ob("O12.3", "R17", fc, ok, "pattern, host, pattern_is_G1 = self._prepare_orientation(G1_use, G2_use)", "the orientation triple is unpacked in order, for (G1, G2)")
-    w = [n for n in walk_local(fc.node) if isinstance(n, ast.Assign) and norm(n.targets[0]) == "self._last_pattern_is_G1" and norm(n.value) == "pattern_is_G1"]
-    rep.ob("O12.3", "R17", fc, len(w) == 1, w[0] if w else "self._last_pattern_is_G1", "the orientation flag of this search is remembered")
-    sc = [c for c in walk_local(fc.node) if isinstance(c, ast.Call) and call_name(c) == "_search_subgraphs"]
-    ok = bool(sc) and [norm(a) for a in sc[0].args] == ["pattern", "host"] and norm(kwarg(sc[0], "mcs") or ast.Constant(None)) == "mcs"
-    rep.ob("O12.3", "R17", fc, ok, sc[0] if sc else "_search_subgraphs", "the search receives (pattern, host) in this order and the maximum-mode flag")
+    rep.ob("O12.3", "R17", fc, b is not None, "self._last_pattern_is_G1 = pattern_is_G1", "the orientation flag of this search is remembered")
+    rep.ob("O12.3", "R17", fc, b is not None, "self._search_subgraphs(pattern, host, mcs=mcs)", "the search receives (pattern, host) in this order and the maximum-mode flag")
     # get_mappings parity
     gmf = rep.f(MM, "MCSMatcher.get_mappings")
+    gd = local_defs(gmf.node)
     loops = [l for l in walk_local(gmf.node) if isinstance(l, ast.For) and norm(l.iter) == "self._mappings"]
     rep.need("R17", len(loops), 1, "loop in get_mappings")
     lp = loops[0]
+    flags = [nm for nm, ds in gd.items() for d_ in ds if d_.kind == "assign" and norm(d_.value) == "self._last_pattern_is_G1"]
+    rep.need("R17", len(flags), 1, "local copy of the orientation flag in get_mappings")
+    fl = flags[0]
+    rets = [r for r in returns_of(gmf.node) if isinstance(r.value, ast.Name)]
+    res = rets[-1].value.id if rets else None
+    dirp = "direction"
     for direction in ("G1_to_G2", "G2_to_G1"):
         for pig1 in (True, False):
-            known = {"direction == 'G1_to_G2'": direction == "G1_to_G2", "direction == 'G2_to_G1'": direction == "G2_to_G1", "pattern_is_G1": pig1}
+            known = {f"{dirp} == 'G1_to_G2'": direction == "G1_to_G2", f"{dirp} == 'G2_to_G1'": direction == "G2_to_G1", fl: pig1}
             try:
                 paths = walk_paths(lp.body, known)
             except Undecided as exc:
                 rep.ob("O12.3", "R17", gmf, None, "get_mappings", str(exc))
                 continue
             for p in paths:
-                apps = [c for st in p.stmts for c in ast.walk(st) if isinstance(c, ast.Call) and norm(c.func) == "result.append"]
+                apps = [c for st in p.stmts for c in ast.walk(st) if isinstance(c, ast.Call) and norm(c.func) == f"{res}.append"]
                 if len(apps) != 1:
                     rep.ob("O12.3", "R17", gmf, False, f"direction={direction}, pattern_is_G1={pig1}", "exactly one mapping is emitted per cached mapping", {"appends": len(apps)})
                     continue
                 inv = sum(1 for c in ast.walk(apps[0]) if isinstance(c, ast.Call) and call_name(c) == "_invert_mapping")
                 want = 1 if ((direction == "G1_to_G2") != pig1) else 0
-                rep.ob("O12.3", "R17", gmf, inv == want, f"direction={direction}, pattern_is_G1={pig1}: {norm(apps[0])}",
+                rep.ob("O12.3", "R17", gmf, inv == want, f"direction={direction}, pattern_is_G1={pig1}: {alpha(apps[0], gmf.node)}",
                        f"cached pattern->host mappings are inverted {want}x for this orientation (the two directions are mutually inverse)", {"inversions": inv}, node=apps[0])
     cw = rep.f(MM, "MCSMatcher._componentwise_mcs")
     pm = parent_map(cw.node)
-    ups = [c for c in walk_local(cw.node) if isinstance(c, ast.Call) and norm(c.func) == "combined.update"]
+    cd = local_defs(cw.node)
+    rets = returns_of(cw.node)
+    res = norm(rets[-1].value) if rets else None
+    ups = [c for c in walk_local(cw.node) if isinstance(c, ast.Call) and norm(c.func) == f"{res}.update"]
+    fls = [nm for nm, ds in cd.items() for d_ in ds if d_.index == (2,) and isinstance(d_.value, ast.Call) and call_name(d_.value) == "_prepare_orientation"]
+    rep.need("R17", len(ups), 2, "combined.update in _componentwise_mcs")
     for c in ups:
         gs = [(norm(t), s) for t, s in guards_of(pm, c, cw.node)]
         inv = "_invert_mapping" in norm(c)
-        ok = (("pattern_is_G1", True) in gs and not inv) or (("pattern_is_G1", False) in gs and inv)
-        rep.ob("O12.3", "R17", cw, ok, f"{norm(c)} under {gs}", "component-wise results are combined as G1->G2 (inverted exactly when the pattern was taken from G2)", node=c)
+        ok = bool(fls) and (((fls[0], True) in gs and not inv) or ((fls[0], False) in gs and inv))
+        rep.ob("O12.3", "R17", cw, ok, f"{alpha(c, cw.node)} under {[s for _, s in gs]}", "component-wise results are combined as G1->G2 (inverted exactly when the pattern was taken from G2)", node=c)
 
 
 MUTANTS = [
